@@ -76,6 +76,12 @@ impl<T: Send + Sync + 'static> Probe<T> {
     }
 
     fn on_msg(&self, m: Message<T, never::Never>) {
+        self.env.with_sink(self.k, |s| s.busy += 1);
+        self.on_msg2(m);
+        self.env.with_sink(self.k, |s| s.busy -= 1);
+    }
+
+    fn on_msg2(&self, m: Message<T, never::Never>) {
         let env = &*self.env;
         let react;
         let _g;
@@ -112,10 +118,27 @@ impl<T: Send + Sync + 'static> Probe<T> {
         }
         // threaded scenarios: the handler is a scheduling point, so that deliveries can overlap
         crate::sched::hook("sink");
-        if react && !env.cfg().passive && env.with_sink(self.k, |s| s.live()) && self.tb().is_some() {
-            let opts = self.options(false);
+        // the sink reacts from inside its handler: up to cfg.maxReact actions (at most one of them a
+        // Pull), ending with "none" or a disposal
+        let cfg = env.cfg();
+        let mut acts = 0;
+        let mut pulled = false;
+        while react
+            && acts < cfg.max_react
+            && !cfg.passive
+            && env.with_sink(self.k, |s| s.live())
+            && self.tb().is_some()
+        {
+            let opts: Vec<String> = self.options(false).into_iter().filter(|o| !(pulled && o == "pull")).collect();
             let optr: Vec<&str> = opts.iter().map(|s| s.as_str()).collect();
             let c = env.decide("sink", &self.name, &optr);
+            if c == "none" {
+                break;
+            }
+            acts += 1;
+            if c == "pull" {
+                pulled = true;
+            }
             self.act(&c);
         }
     }
@@ -134,6 +157,29 @@ impl<T: Send + Sync + 'static> Probe<T> {
         o.push("term".into());
         if cfg.sink_err {
             o.push("err".into());
+        }
+        if !top && cfg.cross {
+            // overlapping subscriptions: from inside its handler this sink makes ANOTHER sink of the same
+            // output act (attach, pull, dispose) -- the nested form of interleaving two subscriptions
+            let g = self.env.lock();
+            if g.ntop < cfg.max_top {
+                for j in 1..=g.sinks.len() {
+                    if j == self.k {
+                        continue;
+                    }
+                    let s = &g.sinks[j - 1];
+                    if !s.attached && (j == 1 || g.sinks[j - 2].attached) {
+                        o.push(format!("x attach K{j}"));
+                    }
+                    // only sinks with no delivery in progress: for them it is a top-level action
+                    if s.live() && s.busy == 0 {
+                        if s.pulls < cfg.max_pull {
+                            o.push(format!("x pull K{j}"));
+                        }
+                        o.push(format!("x term K{j}"));
+                    }
+                }
+            }
         }
         if !top && cfg.reentrant {
             // re-entrant emission: the sink makes a live listenable upstream emit from inside its handler
@@ -175,6 +221,30 @@ impl<T: Send + Sync + 'static> Probe<T> {
                 tb(Message::Error(e));
             },
             other => {
+                if let Some(rest) = other.strip_prefix("x ") {
+                    // a top-level action of another subscription, performed from inside this handler
+                    let (act2, comp2) = rest.split_once(' ').unwrap_or((rest, ""));
+                    let j: usize = comp2.trim_start_matches('K').parse().unwrap_or(0);
+                    let prev = {
+                        let mut g = env.lock();
+                        // this subscription itself does nothing here; the other one acts at top level
+                        if let Some(l) = g.script_proj.last_mut() {
+                            l.1 = json!(["sink", self.name, "none"]);
+                        }
+                        g.script_proj.push((j, json!(["top", comp2, act2])));
+                        g.ntop += 1;
+                        let p = g.cur_owner;
+                        g.cur_owner = j;
+                        p
+                    };
+                    env.event("top", comp2, act2, json!(0));
+                    let ta = env.top_action.lock().unwrap_or_else(|e| e.into_inner()).clone();
+                    if let Some(ta) = ta {
+                        ta(act2, comp2);
+                    }
+                    env.set_owner(prev);
+                    return;
+                }
                 if let Some(name) = other.strip_prefix("kick ") {
                     let (ix, pup) = {
                         let g = env.lock();
